@@ -886,3 +886,39 @@ def rule_axisrange(ctx) -> RuleResult:
                        f"'{norm(c.func)}(…)' is reached without a refusal of axes that the labels do not cover (ax < {arr}.ndim - <labels>.ndim): "
                        "groupby_reduce(array(3, 4), labels(4,), axis=0) silently reduces along the label axis, the same answer as axis=-1")
     return res
+
+
+# ---------------------------------------------------------------------------------------------
+# R-QRANGE (C18, C19): quantile levels outside [0, 1] are refused before any kernel sees them.
+# The flox quantile kernel turns q into partition indices *relative to the start of each group*: a negative q reads the members of the
+# neighbouring group and returns a plausible-looking number (NumPy raises ValueError).  groupby_reduce already refuses a missing q in
+# the block that handles quantile / nanquantile; the same block must bound q on both sides.
+def rule_qrange(ctx) -> RuleResult:
+    res = RuleResult("R-QRANGE", "quantile levels are bounded to [0, 1] on both sides before the kernels run", min_instances=1)
+    from .codes import _local_closure
+    f = ctx.prog.func("core.groupby_reduce")
+    blocks = [st for st in walk_own(f.node) if isinstance(st, ast.If) and "quantile" in norm(st.test) and "func" in names_in(st.test)]
+    if not blocks:
+        raise AnalysisError("groupby_reduce: the block handling func in ['quantile', 'nanquantile'] is gone (anchor)")
+    for b in blocks:
+        lower = upper = False
+        for st in ast.walk(b):
+            if isinstance(st, ast.If) and any(isinstance(r, ast.Raise) for r in ast.walk(st)):
+                for e in _local_closure(f, st.test):
+                    for c in ast.walk(e):
+                        if isinstance(c, ast.Compare) and len(c.ops) == 1 and isinstance(c.comparators[0], ast.Constant):
+                            ltxt = " ".join(norm(x) for x in _local_closure(f, c.left))
+                            if "len(" in ltxt or not ("'q'" in ltxt or "q" in names_in(c.left)):
+                                continue        # a test on the *number* of levels, or on something else
+                            k, op = c.comparators[0].value, c.ops[0]
+                            if k == 0 and isinstance(op, (ast.GtE, ast.Lt, ast.Gt, ast.LtE)):
+                                lower = True
+                            if k == 1 and isinstance(op, (ast.LtE, ast.Gt, ast.Lt, ast.GtE)):
+                                upper = True
+        res.inst(f"groupby_reduce: quantile block bounds q below by 0: {lower}; above by 1: {upper}", f"q|{b.lineno}")
+        if not (lower and upper):
+            side = "on either side" if not (lower or upper) else ("below (q < 0)" if not lower else "above (q > 1)")
+            res.report("core.groupby_reduce|quantile-level-unbounded", f.where(b), f.qualname,
+                       f"the quantile levels are not bounded {side} before the reduction runs: with engine='flox' a negative q indexes into the neighbouring "
+                       "group and a plausible number comes back (quantile of [1, 5 | 2, 9 | 4, 7] at q=-0.5 gives [4.0, 3.5, 6.5]); NumPy raises ValueError")
+    return res
